@@ -117,7 +117,7 @@ Definition ex_w : wrapper :=
      w_params := [("a", {| k_group := "native"; k_ptrs := "&"; k_intent := "inout" |}); ("e", {| k_group := "enum"; k_ptrs := ""; k_intent := "in" |});
                   ("s", {| k_group := "string"; k_ptrs := "&"; k_intent := "in" |}); ("t", {| k_group := "shadow"; k_ptrs := "&"; k_intent := "in" |})];
      w_args := [(Deref, "a"); (Cast, "e"); (StringFrom, "s"); (DerefShadow, "t")]; w_copyouts := []; w_unknown := 0;
-     w_rkind := {| k_group := "enum"; k_ptrs := ""; k_intent := "result" |}; w_result := RCastBack; w_buf := false |}.
+     w_rkind := {| k_group := "enum"; k_ptrs := ""; k_intent := "result" |}; w_result := RCastBack; w_buf := false; w_this_const := false; w_fconst := false |}.
 
 (* what the C caller gets for a callee result *)
 Definition rsem (r : rconv) (x : cxxval) : cval :=
